@@ -119,12 +119,33 @@ fn new_root_body<'gc>(w: &mut World, a: Aid, mc: &'gc Mutation<'gc>, root_set: I
     }
     w.sh.objs.insert(
         root_set,
-        Obj { kind: Kind::SetInner, arena: a, strong: vec![], weak: vec![], toks: vec![], addr, block, destructed: false, released: false, born_event: w.ev_index as u32 },
+        Obj { kind: Kind::SetInner, arena: a, strong: vec![], weak: vec![], toks: vec![], addr, block, destructed: false, released: false, born_event: w.ev_index as u32, lay: None, conv: vec![] },
     );
     w.addr2id.insert(addr, root_set);
-    w.sh.next_id = w.sh.next_id.max(root_set + 1);
     w.rt[a as usize].allocs += 1;
-    RootBody { slots: vec![None; ROOT_STRONG], fp: FaultPoint(ROOT_SITE + a as u32), weak: vec![None; ROOT_WEAK], set }
+    // the ZstCache and its shared object
+    let since = seam::mark();
+    let zst = {
+        let _t = seam::track();
+        gc_arena::zst_cache::ZstCache::<16>::new(mc)
+    };
+    let zaddr = gc_arena::Gc::as_ptr(zst.cached_ptr()) as usize;
+    let zblock = seam::attribute(zaddr, since, root_set + 1);
+    if zblock.is_none() && seam::active() {
+        w.violate("H.seam", "cannot locate the Gc object of the root ZstCache".into());
+    }
+    if zaddr % 16 != 0 {
+        w.violate("C19.zst-table", "the cached pointer of a ZstCache<16> is not aligned to 16".into());
+    }
+    w.sh.objs.insert(
+        root_set + 1,
+        Obj { kind: Kind::ZstShared, arena: a, strong: vec![], weak: vec![], toks: vec![], addr: zaddr, block: zblock, destructed: false, released: false, born_event: w.ev_index as u32, lay: None, conv: vec![] },
+    );
+    w.addr2id.insert(zaddr, root_set + 1);
+    w.sh.arena_mut(a).root_zst = Some(root_set + 1);
+    w.rt[a as usize].allocs += 1;
+    w.sh.next_id = w.sh.next_id.max(root_set + 2);
+    RootBody { slots: vec![None; ROOT_STRONG], fp: FaultPoint(ROOT_SITE + a as u32), weak: vec![None; ROOT_WEAK], set, zst }
 }
 
 impl World {
@@ -184,7 +205,7 @@ impl World {
         if self.arenas.len() > ai && (self.arenas[ai].is_some() || self.sh.arenas[ai].is_some()) {
             return;
         }
-        if self.sh.objs.contains_key(&root_set) || ai > self.arenas.len() || ai >= 8 {
+        if self.sh.objs.contains_key(&root_set) || self.sh.objs.contains_key(&(root_set + 1)) || ai > self.arenas.len() || ai >= 8 {
             return;
         }
         while self.arenas.len() <= ai {
@@ -198,6 +219,7 @@ impl World {
             root_strong: vec![None; ROOT_STRONG],
             root_weak: vec![None; ROOT_WEAK],
             root_set_inner: root_set,
+            root_zst: None,
             resurrected: BTreeSet::new(),
             pacing: p,
         });
